@@ -169,6 +169,7 @@ class Run:
         self.Q = Q
         R = Recorder(Q, self.tk, self.names)
         R.recseq = self.recseq
+        R.exact = bool(sc["exact"])
         self.R = R
         for a, k in self.ctx.pending:
             R.step(*a, **k)
@@ -236,7 +237,8 @@ class Run:
         rec.wrap(Q.deadlock_detector, "detect_deadlock", post=after_detect)
         try:
             if sc["stop"] == "time":
-                Q.simulate_until_max_time(sc["T"])
+                from .scenario import tv
+                Q.simulate_until_max_time(tv(sc, sc["T"]))
             elif sc["stop"] == "deadlock":
                 Q.simulate_until_deadlock()
             else:
